@@ -1277,6 +1277,44 @@ def tr_bigstream(texts, sep, tail='', model='default'):
     return t
 
 
+def tr_filehist(hist, model='default', how='path'):
+    """A history of dumps and loads on two paths, generated by MC_File, replayed on real files (how: the path as str, as
+    pathlib.Path, or an open file object).  Every load is logged; a dump that raises is logged too."""
+    import pathlib
+    m = get_model(model)
+    codec = penman.PENMANCodec(model=m)
+    d = _clidir()
+    paths = {1: os.path.join(d, 'hist-1.txt'), 2: os.path.join(d, 'hist-2.txt')}
+    for pth in paths.values():
+        if os.path.exists(pth):
+            os.remove(pth)
+    t = {'kind': 'filehist', 'model': model, 'how': how, 'hist': hist, 'steps': []}
+    for ev in hist:
+        pth = paths[ev['path']]
+        if ev['op'] == 'dump':
+            gs = [codec.decode(x) for x in ev['texts']]
+            if how == 'fileobj':
+                def run():
+                    with open(pth, 'w', encoding='utf-8') as fh:
+                        penman.dump(gs, fh, model=m)
+            else:
+                def run():
+                    penman.dump(gs, pathlib.Path(pth) if how == 'Path' else pth, model=m, encoding='utf-8')
+            ok, r = guarded(run)
+            t['steps'].append({'ok': bool(ok), 'exc': '' if ok else excname(r), 'graphs': []})
+        else:
+            if how == 'fileobj':
+                def ld():
+                    with open(pth, encoding='utf-8') as fh:
+                        return penman.load(fh, model=m)
+            else:
+                def ld():
+                    return penman.load(pathlib.Path(pth) if how == 'Path' else pth, model=m, encoding='utf-8')
+            o = _outcome('load', ld)
+            t['steps'].append({'ok': o['ok'], 'exc': o['exc'], 'graphs': o['graphs']})
+    return t
+
+
 def tr_dumps(texts, model='default', indent=-1, compact=False):
     """texts: one text per graph; they are decoded, then dumped in several ways and loaded back."""
     m = get_model(model)
